@@ -166,6 +166,100 @@ def fixed_cases():
     return cs
 
 
+# ------------------------------------------------------------------ cross-relay histories (level a, kind "xrelay")
+
+def _xpatterns(rng, n):
+    """distinct multipliers for the 2n streams of a cross-relay run: two chunks of >= 2 bytes of different streams never coincide"""
+    mult = rng.sample(range(1, 256), 2 * n)
+    return [(mult[2 * i], rng.randrange(256), mult[2 * i + 1], rng.randrange(256)) for i in range(n)]
+
+
+def _chunk(rng, big=False):
+    if big and rng.random() < 0.5:
+        return rng.choice(BIG)
+    return rng.choice([2, 3, 17, 100, 1000, rng.randrange(2, 600), rng.randrange(2, 3000)])
+
+
+def gen_xdirected(rng):
+    """One relay ends in one direction (EOF / error / veto / failed write) while its other direction is still parked in
+    Read; between the return of its copy and the Close of its ends the parked Read gets late bytes; meanwhile 1-3 other
+    relays have started, read a chunk and are held inside LogTraffic or a slow Write across that moment."""
+    nv = rng.choice([1, 1, 2, 3])
+    pats = _xpatterns(rng, nv + 1)
+    first = rng.choice("UD")                     # the direction of relay 0 that ends its relay
+    how = rng.choice(["eof", "eof", "eof", "err", "veto", "wfault"])
+    t1 = rng.randrange(50, 400)
+    late_t = t1 + rng.randrange(2000, 6000)
+    big = rng.random() < 0.15
+    pre = rng.choice([0, 0, 1, 2])
+    ender = {"reads": [{"n": _chunk(rng), "err": "", "delay": rng.randrange(0, 20)} for _ in range(pre)], "writes": [], "logs": []}
+    if how in ("eof", "err"):
+        if ender["reads"] and rng.random() < 0.4:
+            ender["reads"][-1]["err"] = how
+            ender["reads"][-1]["delay"] = t1
+        else:
+            ender["reads"].append({"n": 0, "err": how, "delay": t1})
+    else:
+        ender["reads"].append({"n": _chunk(rng), "err": "", "delay": t1})
+        if how == "veto":
+            ender["logs"] = [{"delay": 0, "v": True}] * pre + [{"delay": 0, "v": False}]
+        else:
+            ender["writes"] = [{"delay": 0, "short": -1, "err": ""}] * pre + [{"delay": 0, "short": rng.choice([-1, 0, 1]), "err": "err"}]
+    linger = {"reads": [{"n": _chunk(rng), "err": "", "delay": rng.randrange(0, 20)} for _ in range(rng.choice([0, 0, 1, 2]))],
+              "writes": [], "logs": []}
+    nlate = rng.choice([1, 1, 2])
+    for j in range(nlate):
+        linger["reads"].append({"n": _chunk(rng, big), "err": rng.choice(["", "", "eof"]) if j == nlate - 1 else "",
+                                "delay": late_t if j == 0 else rng.randrange(100, 1500)})
+    # the ends are closed after the late bytes arrived (mostly), or before (the parked Read then fails instead)
+    teardown = late_t - t1 + (rng.randrange(1500, 6000) if rng.random() < 0.85 else -rng.randrange(100, 1500))
+    r0 = {"mode": "logged", "start": 0, "teardown": max(0, teardown),
+          "up": ender if first == "U" else linger, "down": linger if first == "U" else ender}
+    relays = [r0]
+    for v in range(nv):
+        start = rng.randrange(t1 + 100, late_t - 300)
+        hold = late_t - start + rng.randrange(300, 2500)          # until after the late bytes of relay 0
+        sides = rng.choice(["UD", "UD", "UD", "U", "D"])
+        rel = {"mode": "logged" if rng.random() < 0.9 else "fast", "start": start, "teardown": rng.choice([0, rng.randrange(1, 2000)])}
+        for d, key in (("U", "up"), ("D", "down")):
+            side = {"reads": [], "writes": [], "logs": []}
+            if d in sides:
+                n = _chunk(rng, big)
+                side["reads"].append({"n": n, "err": "", "delay": rng.randrange(0, 60)})
+                nw = -(-n // 32768)
+                if rel["mode"] == "logged" and rng.random() < 0.7:
+                    side["logs"] = [{"delay": hold, "v": True}] + [{"delay": 0, "v": True}] * (nw - 1)
+                else:
+                    side["writes"] = [{"delay": hold, "short": -1, "err": ""}]
+                for _ in range(rng.choice([0, 0, 1, 2])):
+                    side["reads"].append({"n": _chunk(rng), "err": "", "delay": rng.randrange(0, 500)})
+                if rng.random() < 0.5:
+                    side["reads"].append({"n": 0, "err": rng.choice(["eof", "eof", "err"]), "delay": rng.randrange(0, 3000)})
+            rel[key] = side
+        relays.append(rel)
+    for rel, (ua, ub, da, db) in zip(relays, pats):
+        rel["up"]["a"], rel["up"]["b"], rel["down"]["a"], rel["down"]["b"] = ua, ub, da, db
+    return {"k": "xrelay", "relays": relays}
+
+
+def gen_xrandom(rng):
+    """2-4 unrelated random relay histories started within a few milliseconds of each other."""
+    n = rng.choice([2, 2, 3, 4])
+    pats = _xpatterns(rng, n)
+    relays = []
+    for i in range(n):
+        c = gen_relay(rng, False)
+        del c["k"]
+        for key in ("up", "down"):
+            c[key]["reads"] = c[key]["reads"][:3]
+        c["mode"] = "logged" if rng.random() < 0.9 else "fast"
+        c["start"] = 0 if i == 0 else rng.randrange(0, 4000)
+        c["teardown"] = rng.choice([0, rng.randrange(1, 4000), rng.randrange(1, 4000)])
+        c["up"]["a"], c["up"]["b"], c["down"]["a"], c["down"]["b"] = pats[i]
+        relays.append(c)
+    return {"k": "xrelay", "relays": relays}
+
+
 def e2e_cases(rng, tier):
     def mk(**kw):
         c = {"k": "e2e", "fastopen": False, "logger": True, "dial_err": "", "up_n": 5000, "up_chunk": 700, "down_n": 70000,
@@ -183,7 +277,22 @@ def e2e_cases(rng, tier):
     # packet, several packets, beyond a 4 KiB read-ahead) right behind the request
     for n, ch in ((16, 16), (52, 52), (3000, 700), (1199, 1199), (9000, 5000), (2000, 1)):
         cs.append(mk(fastopen=True, logger=rng.random() < 0.7, up_n=n, up_chunk=ch, down_n=rng.choice([1, 3000]), down_chunk=1000))
+    # one-way uploads: TCP(); Write(payload); Close() and never a Read - with fast open the connection is closed before the
+    # client has seen the response (it only becomes Established on its first Read); eager twins; the server's connect to
+    # the target takes a while, so the Close overtakes the dial
+    for fo in (True, True, False):
+        n = rng.choice([1, 52, 1199, 4096, 9000, 40000])
+        cs.append(mk(fastopen=fo, logger=rng.random() < 0.5, no_read=True, dial_delay=rng.choice([100, 300]), up_n=n,
+                     up_chunk=rng.choice([n, n, 700, max(1, n // 3)]), down_n=rng.choice([0, 0, 100]), down_chunk=100,
+                     close_delay=rng.choice([0, 0, 20])))
+    cs.append(mk(fastopen=True, logger=rng.random() < 0.5, no_read=True, dial_delay=0, up_n=rng.choice([16, 3000, 70000]),
+                 up_chunk=rng.choice([1000, 5000]), down_n=0, close_delay=0))
     if tier != "quick":
+        for _ in range(16):
+            n = rng.choice([1, 16, 52, 1199, 4096, 40000, 200000, rng.randrange(1, 100000)])
+            cs.append(mk(fastopen=rng.random() < 0.7, logger=rng.random() < 0.6, no_read=True, dial_delay=rng.choice([0, 10, 100, 300, 1000]),
+                         up_n=n, up_chunk=rng.choice([n, 1000, 5000, 40000, max(1, n // 7)]), down_n=rng.choice([0, 100, 40000]),
+                         down_chunk=1000, close_delay=rng.choice([0, 0, 5, 50, 400])))
         for _ in range(40):
             cs.append(mk(fastopen=rng.random() < 0.5, logger=rng.random() < 0.7, up_n=rng.randrange(0, 100000),
                          up_chunk=rng.choice([1, 100, 5000, 40000]), down_n=rng.randrange(0, 200000),
@@ -259,7 +368,7 @@ def to_coq(c, o):
 
 def klass(c, o):
     if c["k"] == "e2e":
-        kind = "dial-error" if c["dial_err"] else ("veto" if o.get("vetoed") else "data")
+        kind = "dial-error" if c["dial_err"] else ("upload-noread" if c.get("no_read") else ("veto" if o.get("vetoed") else "data"))
         return "e2e:%s:fo=%d:logger=%d%s" % (kind, c["fastopen"], c["logger"], ":SKIPPED" if o.get("skip") else "")
     f = o.get("facts") or {}
     if o.get("panic"):
